@@ -538,17 +538,22 @@ def evaluate_payload_template(input, context, template):
                     "States.MathRandom failed, requires two or three arguments"
                 )
             # The last argument controls the seed value and is optional.
-            if len(args) == 3:
-                # https://docs.python.org/3/library/random.html#random.seed
-                random.seed(args[2])
             if not isinstance(args[0], int) or not isinstance(args[1], int):
                 raise IntrinsicFailure(
                     "States.MathRandom failed, args[0] and args[1] must be integers."
                 )
 
-            # States.MathRandom has inclusive start and exclusive end number
-            # https://docs.aws.amazon.com/step-functions/latest/dg/amazon-states-language-intrinsic-functions.html#asl-intrsc-func-math-operation
-            return random.randrange(args[0], args[1])
+            try:
+                if len(args) == 3:
+                    # https://docs.python.org/3/library/random.html#random.seed
+                    random.seed(args[2])
+                # States.MathRandom has inclusive start and exclusive end number
+                # https://docs.aws.amazon.com/step-functions/latest/dg/amazon-states-language-intrinsic-functions.html#asl-intrsc-func-math-operation
+                return random.randrange(args[0], args[1])
+            except Exception as e:
+                raise IntrinsicFailure(
+                    "States.MathRandom failed with {}.".format(e)
+                )
 
         def asl_intrinsic_MathAdd(args):
             if len(args) != 2:
@@ -599,6 +604,10 @@ def evaluate_payload_template(input, context, template):
 
 
         # Extract intrinsic name and normalise it to asl_intrinsic_<name>
+        if "(" not in intrinsic:
+            raise IntrinsicFailure(
+                "{} is not an Intrinsic Function call.".format(intrinsic)
+            )
         func, args = intrinsic.split("(", 1)
         func = func.strip()
         if not func.startswith("States."):
@@ -685,6 +694,11 @@ def evaluate_payload_template(input, context, template):
             v = k
 
         if v_is_path_or_intrinsic:
+            if not isinstance(v, str):
+                raise IntrinsicFailure(
+                    "The value of field {}.$ must be a Path or an Intrinsic "
+                    "Function String, not {}.".format(k, v)
+                )
             if v == "$":  # It's a path representing the root node
                 v = clone(input)  # clone to avoid potential circular reference
             elif v.startswith("$"):  # It's a path
